@@ -1294,6 +1294,17 @@ class Stopper(Commander):
         self.application_start_requests: Dict[str, Stopper.StartApplicationParameters] = {}
         self.process_start_requests: Dict[str, List[Stopper.StartProcessParameters]] = {}
 
+    def abort(self) -> None:
+        """ Abort all jobs and forget the start requests deferred until the completion of the aborted stopping jobs.
+        Otherwise, they would be applied at the end of a later stop sequence of the same application,
+        typically when everything is stopped before Supvisors is restarted or shut down.
+
+        :return: None
+        """
+        super().abort()
+        self.application_start_requests = {}
+        self.process_start_requests = {}
+
     def stop_applications(self) -> None:
         """ Plan and start the necessary jobs to stop all the applications having a stop_sequence.
 
